@@ -300,8 +300,14 @@ func setValue(rv reflect.Value, n *Node, in *Input) {
 }
 
 // pre-fill a Parse destination with "never written" sentinels (InitDest in the spec)
-func initDest(rv reflect.Value, n *Node) {
+func initDest(rv reflect.Value, n *Node, pre bool) {
 	switch n.K {
+	case "ptr":
+		if pre {
+			p := reflect.New(rv.Type().Elem())
+			initDest(p.Elem(), n.Elem(), pre)
+			rv.Set(p)
+		}
 	case "prim":
 		if n.Ty != "bool" {
 			rv.Set(reflect.ValueOf(concNative(n.Ty, Sentinel)))
@@ -310,7 +316,7 @@ func initDest(rv reflect.Value, n *Node) {
 		rv.SetInt(Sentinel)
 	case "struct":
 		for _, k := range n.Kids {
-			initDest(rv.FieldByName(fieldName(k.Key)), k.Node)
+			initDest(rv.FieldByName(fieldName(k.Key)), k.Node, pre)
 		}
 		rv.FieldByName("ExtraZ").SetInt(Sentinel)
 	}
@@ -426,6 +432,12 @@ func (b *builder) postTransform(kind string, tmpl []string, i int, n *Node) z.Po
 	return func(ptr any, ctx z.Ctx) error {
 		b.rec.callback("pt", "p", i, tmpl, n, ptr, ctx)
 		switch kind {
+		case "mut":
+			// rewrite the (primitive) destination with the marker value 7
+			rv := reflect.ValueOf(ptr)
+			if rv.Kind() == reflect.Pointer && !rv.IsNil() && n.K == "prim" {
+				rv.Elem().Set(reflect.ValueOf(concNative(n.Ty, 7)))
+			}
 		case "err":
 			return errors.New("pt failed")
 		case "zerr":
